@@ -418,6 +418,8 @@ class Walk:
         to = ""
         if r.chance(0.3) or getattr(self, "force_timeout", False):
             to = f" timeout={r.choice([1, 50, 500, 5000])}"
+            if self.adv and r.chance(0.1):
+                to = " timeout=max"       # the largest duration the options builders accept: never expires
         if self.profile == "qos2tiny":
             k = "pub"
         if k == "pub":
@@ -623,6 +625,7 @@ class Walk:
         b = self.broker
         # from here on the inbound stream of this connection may be desynchronised (bytes swallowed as
         # the body of a bogus packet): expectations about later deliveries are suspended until reconnect
+        was_tainted = self.tainted
         self.tainted = True
         c = r.random()
         hostile_ack = None
@@ -630,10 +633,13 @@ class Walk:
         if early and r.chance(0.5):
             # the PUBREL for this id has not arrived yet (it may be queued or half written): answer it anyway
             hp = r.choice(early)
-            pkt = b.ack("pubcomp", hp) if r.chance(0.6) else b.ack("pubrec", hp, 128 if self.v5 else 0)
+            comp = r.chance(0.6)
+            pkt = b.ack("pubcomp", hp) if comp else b.ack("pubrec", hp, 128 if self.v5 else 0)
             hostile_ack = {"kind": "pubcomp", "pid": hp, "hostile": True}
             self.data(pkt, "hostile:early-pubcomp")
-            self.notes[-1].update(ack=hostile_ack)
+            # a PUBCOMP (or a failing PUBREC after the successful one) before the PUBREL has left the client is a protocol
+            # violation whatever the engine is doing with that PUBREL (queued, half written): it must be refused
+            self.notes[-1].update(ack=hostile_ack, must_refuse=(comp or self.v5) and not was_tainted)
             return
         ackable = [x for x in b.pending if x["kind"] in ("suback", "unsuback", "puback", "pubrec", "pubcomp")]
         if ackable and r.chance(0.3):
